@@ -131,7 +131,7 @@ PROPS = {
     "C05": risk_prop2(["liquidate"], LIQ_DRIVERS + LEDGER_DRIVERS, models=RISK_MODELS),
     "C07": risk_prop2(["bankruptcy"], LIQ_DRIVERS + LEDGER_DRIVERS, models=RISK_MODELS),
     "C09": risk_prop2(["borrow", "withdraw", "liquidate", "bankruptcy", "pulse_health"], LIQ_DRIVERS + RISK_DRIVERS + LEDGER_DRIVERS, models=RISK_MODELS),
-    "C13": risk_prop2(["add_bank", "configure_bank", "configure_emode", "borrow", "withdraw", "pulse_health", "bankruptcy"], LIQ_DRIVERS + RISK_DRIVERS, models=RISK_MODELS),
+    "C13": risk_prop2(["add_bank", "configure_bank", "configure_emode", "borrow", "withdraw", "pulse_health", "bankruptcy", "clone_emode"], LIQ_DRIVERS + RISK_DRIVERS + ADMIN_DRIVERS, models=RISK_MODELS),
     "C14": risk_prop2(["deposit", "withdraw", "borrow", "repay", "liquidate", "bankruptcy"], LIQ_DRIVERS, models=GATE_MODELS),
     "C01": ledger_prop(),
     "C02": ledger_prop(),
